@@ -136,6 +136,26 @@ def h10():
     return el, [(el, "2020-01-01T10:00:00Z"), (el, "2020-01-01 10:00:00 EST")]
 
 
+def _deep(n):
+    v = 1
+    for _ in range(n):
+        v = [v]
+    return v
+
+
+def h11():
+    # two failing validations whose messages mention an integer beyond the interpreter's int -> str digit limit
+    # (process-wide interpreter settings touched while a message is rendered are shared between the threads)
+    el = Integer(enum=[1, 10 ** 5000])
+    return el, [(el, 5), (el, 7)]
+
+
+def h12():
+    # one value nested deeper than the interpreter's recursion limit allows, while another validation is in flight
+    el = Element(items=Element(), minItems=0)
+    return el, [(el, _deep(400)), (el, [1])]
+
+
 def r4():
     el = Element(items=[Integer(), String()], additionalItems=Number())
     return el, [(el, [1, "a", 2]), (el, [1, 2])]
@@ -192,7 +212,7 @@ def h1x2calls():
     return tree, [[calls[0], (tree, {"k": 0, "b": "t"})], [calls[1], (tree, {"k": 2, "b": "u", "zz": 1})]]
 
 
-HARNESSES = {"T1": t1, "T2": t2, "T3": t3, "H3s": h3s, "H5s": h5s, "H1": h1, "H2": h2, "H3": h3, "H4": h4, "H5": h5, "H6": h6, "H7": h7, "H8": h8, "H9": h9, "H10": h10, "R4": r4, "R5": r5, "R6": r6, "H1x3": h1x3, "H1x2": h1x2calls}
+HARNESSES = {"T1": t1, "T2": t2, "T3": t3, "H3s": h3s, "H5s": h5s, "H1": h1, "H2": h2, "H3": h3, "H4": h4, "H5": h5, "H6": h6, "H7": h7, "H8": h8, "H9": h9, "H10": h10, "H11": h11, "H12": h12, "R4": r4, "R5": r5, "R6": r6, "H1x3": h1x3, "H1x2": h1x2calls}
 
 
 def make(hname):
@@ -290,6 +310,7 @@ CALLS = ("calls", ("__call__", "__init__", "__new__", "bind", "evolve", "scoped"
 
 
 FORMAT_LINES = ("lines", ("format.py", "string.py"))
+MESSAGE_LINES = ("lines", ("exceptions.py",))
 
 
 def plan(tier, seed):
@@ -306,6 +327,8 @@ def plan(tier, seed):
         configs.append(("T3", "switch", 2, 6))
         configs.append(("H9", CALLS, 2, None))
         configs.append(("H10", FORMAT_LINES, 2, None))
+        configs.append(("H11", MESSAGE_LINES, 2, None))
+        configs.append(("H12", CALLS, 1, None))
     else:
         for h in ("H1", "H2", "H3", "H4", "H5", "H6", "H7", "H8", "H1x2", "T2", "R4", "R5", "R6"):
             configs.append((h, "line", 1, None))
@@ -318,6 +341,8 @@ def plan(tier, seed):
         configs.append(("H9", "switch", 1, None))
         configs.append(("H4", CALLS, 2, None))
         configs.append(("H10", FORMAT_LINES, 3, None))
+        configs.append(("H11", MESSAGE_LINES, 2, None))
+        configs.append(("H12", CALLS, 1, None))
         configs.append(("H10", "line", 1, None))
     items = []
     meta = {"configs": [], "exhaustive": True}
